@@ -223,23 +223,29 @@ Proof.
   apply chunks_fuel_enough; [exact Hn | lia].
 Qed.
 
-Lemma sha2_pad_app block lenbytes a m :
-  length a = block -> (0 < block)%nat -> sha2_pad block lenbytes 0 (a ++ m) = a ++ sha2_pad block lenbytes (Z.of_nat block) m.
+Lemma sha2_pad_app block lenbytes done bz a m :
+  length a = block -> (0 < block)%nat -> bz = Z.of_nat block ->
+  sha2_pad block lenbytes done (a ++ m) = a ++ sha2_pad block lenbytes (done + bz) m.
 Proof.
-  intros Ha Hb. unfold sha2_pad. rewrite app_length, Ha, <- app_assoc.
+  intros Ha Hb ->. unfold sha2_pad. rewrite app_length, Ha, <- app_assoc.
   replace (- (Z.of_nat (block + length m) + 1 + Z.of_nat lenbytes))
     with (- (Z.of_nat (length m) + 1 + Z.of_nat lenbytes) + (-1) * Z.of_nat block) by lia.
   rewrite Z.mod_add by lia.
-  replace (0 + Z.of_nat (block + length m)) with (Z.of_nat block + Z.of_nat (length m)) by lia.
+  replace (done + Z.of_nat (block + length m)) with (done + Z.of_nat block + Z.of_nat (length m)) by lia.
   reflexivity.
 Qed.
 
-Lemma sha512_prefix_block a m : length a = 128%nat -> sha512 (a ++ m) = sha512_from (sha512_compress sha512_iv a) 128 m.
+Lemma sha512_from_prefix_block s done a m : length a = 128%nat ->
+  sha512_from s done (a ++ m) = sha512_from (sha512_compress s a) (done + 128) m.
 Proof.
-  intros Ha. unfold sha512, sha512_from.
-  rewrite (sha2_pad_app 128 16 a m Ha) by lia.
-  rewrite chunks_app_block by (try exact Ha; lia). reflexivity.
+  intros Ha. unfold sha512_from.
+  rewrite (sha2_pad_app 128 16 done 128 a m Ha) by (try reflexivity; lia).
+  rewrite chunks_app_block by (try exact Ha; lia).
+  cbn [fold_left]. reflexivity.
 Qed.
+
+Lemma sha512_prefix_block a m : length a = 128%nat -> sha512 (a ++ m) = sha512_from (sha512_compress sha512_iv a) 128 m.
+Proof. intros Ha. unfold sha512. rewrite sha512_from_prefix_block by exact Ha. rewrite Z.add_0_l. reflexivity. Qed.
 
 Lemma hmac_key_length H block key : (length (H key) <= block)%nat -> length (hmac_key H block key) = block.
 Proof.
